@@ -5,11 +5,12 @@ import ast
 import typing as T
 
 from ..context import Context
+from ..guards import guards_of
 from ..load import AnalysisError, FuncInfo, chain, norm, own_nodes, parent
 from ..norm import UNKNOWN, peval
 from .common import NET_OPS, fkey, net_sites, trees, where
 
-EXPECTED_DELAYS = [0, 0.5, 1, 2, 4]
+EXPECTED_DELAYS = [0, 0.5, 1, 2, 4, 8, 16, 32]      # `0, 0.5, 1, 2, ...`: the ratio stays 2 (a levelled-off sequence deviates from the sixth retry on)
 
 
 def find_retry_loop(ctx: Context, f: FuncInfo) -> tuple[T.Any, ast.Try, ast.ExceptHandler]:
@@ -22,6 +23,14 @@ def find_retry_loop(ctx: Context, f: FuncInfo) -> tuple[T.Any, ast.Try, ast.Exce
                         if any(x in ("ConnectError", "ConnectTimeout") for x in types_):
                             return n, t, h
     raise AnalysisError(f"anchor vanished: connect retry loop in {f.qual}")
+
+
+def _ancestors(n: ast.AST):
+    from ..load import parent as _p
+    x = _p(n)
+    while x is not None:
+        yield x
+        x = _p(x)
 
 
 def _for_form(ctx: Context, tree: str, f: FuncInfo, loop: ast.For, tr: ast.Try, handler: ast.ExceptHandler) -> None:
@@ -180,6 +189,14 @@ def run(ctx: Context) -> None:
                    f"guard `{ast.unparse(guard_if.test)}` with counter `{ctr}` lets through {sim} retries for retries = -1, 0, 1, 2, 5; must be exactly {want}")
             rep.ob("C20.R3", fkey(tree, f, "reraise"), any(isinstance(x, ast.Raise) and x.exc is None for x in guard_if.body), where(f, guard_if),
                    "exhausted retries re-raise the last error (bare `raise`)")
+            # no other way of giving up: a connect failure is retried N times - not "N times unless something else says stop"
+            in_guard = {id(x) for b in guard_if.body for x in ast.walk(b)}
+            others = [x for x in ast.walk(handler) if isinstance(x, ast.Raise) and id(x) not in in_guard
+                      and not any("isinstance(" in norm(t) for t, _ in guards_of(x))]
+            if others:
+                # "at most N more times" allows giving up early: recorded, not a verdict
+                rep.note(f"{tree}: the retry handler also gives up at line {others[0].lineno} under "
+                         f"{sorted(norm(t) for t, _ in guards_of(others[0]) if any(x is handler for x in _ancestors(t)))[:3]} - fewer than the configured number of retries are possible")
             # initialisation: once, before the loop, a function of the configured limit only
             init_reads = {norm(x) for n in pre for x in ast.walk(n.value) if isinstance(x, (ast.Name, ast.Attribute))} - {"self"}
             ok_init = len(pre) == 1 and init_reads <= {"self._retries"}
@@ -249,11 +266,19 @@ def _backoff(ctx: Context, f: FuncInfo, term: str) -> tuple[bool, str]:
             if v is UNKNOWN:
                 return False, f"cannot fold argument `{ast.unparse(bound[p][0])}`"
             env[p] = v
-    ys = _fold_generator(gen, env, 5)
+    # parameters the call leaves at their default
+    ga = gen.node.args
+    pos = ga.posonlyargs + ga.args
+    for a, d in list(zip(pos[len(pos) - len(ga.defaults):], ga.defaults)) + [(a, d) for a, d in zip(ga.kwonlyargs, ga.kw_defaults) if d is not None]:
+        if a.arg not in env:
+            dv = peval(d, _module_consts(gen))
+            if dv is not UNKNOWN:
+                env[a.arg] = dv
+    ys = _fold_generator(gen, env, len(EXPECTED_DELAYS))
     if ys is None:
         raise AnalysisError(f"back-off generator {gen.qual} has a shape the folder does not model")
-    ok = len(ys) == 5 and all(abs(float(a) - float(b)) < 1e-12 for a, b in zip(ys, EXPECTED_DELAYS))
-    return ok, f"first five delays fold to {ys} (expected {EXPECTED_DELAYS})"
+    ok = len(ys) == len(EXPECTED_DELAYS) and all(abs(float(a) - float(b)) < 1e-12 for a, b in zip(ys, EXPECTED_DELAYS))
+    return ok, f"first {len(EXPECTED_DELAYS)} delays fold to {ys} (expected {EXPECTED_DELAYS})"
 
 
 def _module_consts(f: FuncInfo) -> dict[str, object]:
@@ -291,12 +316,18 @@ def _fold_generator(gen: FuncInfo, env: dict[str, object], n: int) -> list[objec
                 seq = iter(range(*args))  # type: ignore[arg-type]
             else:
                 return None
-            if not (len(st.body) == 1 and isinstance(st.body[0], ast.Expr) and isinstance(st.body[0].value, ast.Yield)):
+            lbody = effective_body(st.body)
+            # temporaries, then exactly one yield
+            if not (lbody and isinstance(lbody[-1], ast.Expr) and isinstance(lbody[-1].value, ast.Yield) and lbody[-1].value.value is not None
+                    and all(isinstance(x, ast.Assign) and len(x.targets) == 1 and isinstance(x.targets[0], ast.Name) for x in lbody[:-1])):
                 return None
             for i in seq:
                 if len(out) >= n:
                     break
-                v = peval(st.body[0].value.value, {**env, st.target.id: i})
+                env_i = {**env, st.target.id: i}
+                for x in lbody[:-1]:
+                    env_i[x.targets[0].id] = peval(x.value, env_i)
+                v = peval(lbody[-1].value.value, env_i)
                 if v is UNKNOWN:
                     return None
                 out.append(v)
